@@ -31,7 +31,8 @@
 EXTENDS Integers, Sequences, TLC
 
 CONSTANTS G,       \* [rules |-> <<[name, expr]>>]
-          Checked  \* assert the engine invariants (Contract) on every step
+          Checked, \* assert the engine invariants (Contract) on every step
+          Traced   \* fold (kind, position) of every step into the step-trace hash (costs about a third of the run time)
 
 Nil == [k |-> "nil"]
 Str(s) == [k |-> "str", s |-> s]
@@ -197,7 +198,7 @@ R(ok, st, v, labs) == [ok |-> ok, st |-> st, v |-> v, labs |-> labs]
 \* step trace of a parse, compared with the trace the real parser reports through its step hook (kind and offset of every step)
 Code(t) == CASE t = "choice" -> 1 [] t = "seq" -> 2 [] t = "act" -> 3 [] t = "lab" -> 4 [] t = "ref" -> 5 [] t = "lit" -> 6 [] t = "cls" -> 7
              [] t = "any" -> 8 [] t = "andcode" -> 9 [] t = "not" -> 10 [] t = "and" -> 11 [] t = "opt" -> 12 [] t = "star" -> 13 [] t = "plus" -> 14
-Bump(st, e) == [st EXCEPT !.cnt = @ + 1, !.h = (@ * 31 + e.c * 131 + st.pos) % 16777213]    \* e.c = Code(e.t), precomputed in the grammar table
+Bump(st, e) == IF Traced THEN [st EXCEPT !.cnt = @ + 1, !.h = (@ * 31 + e.c * 131 + st.pos) % 16777213] ELSE [st EXCEPT !.cnt = @ + 1]    \* e.c = Code(e.t), precomputed in the grammar table
 Adv(inp, st) ==       \* read(): moving onto a byte that is not valid UTF-8 records an error
   LET np == st.pos + 1 IN
   [st EXCEPT !.pos = np, !.errs = IF np <= Len(inp) /\ inp[np] = "<B>" THEN @ + 1 ELSE @]
